@@ -19,18 +19,18 @@ theorem foldl_add_start {α : Type} (l : List α) (f : α → K) (a : K) :
   | nil => simp
   | cons x xs ih => simp only [List.foldl_cons]; rw [ih (a + f x), ih (0 + f x)]; ring
 
-theorem sumList_nil {α : Type} (f : α → K) : sumList ([] : List α) f = 0 := rfl
-theorem sumList_cons {α : Type} (x : α) (l : List α) (f : α → K) : sumList (x :: l) f = f x + sumList l f := by
+theorem sumListB_nil {α : Type} (f : α → K) : sumList ([] : List α) f = 0 := rfl
+theorem sumListB_cons {α : Type} (x : α) (l : List α) (f : α → K) : sumList (x :: l) f = f x + sumList l f := by
   unfold sumList; simp only [List.foldl_cons]; rw [foldl_add_start]; ring
-theorem sumList_append {α : Type} (l l' : List α) (f : α → K) : sumList (l ++ l') f = sumList l f + sumList l' f := by
+theorem sumListB_append {α : Type} (l l' : List α) (f : α → K) : sumList (l ++ l') f = sumList l f + sumList l' f := by
   induction l with
-  | nil => simp [sumList_nil]
-  | cons x xs ih => simp only [List.cons_append, sumList_cons, ih]; ring
-theorem sumList_zero {α : Type} (l : List α) (f : α → K) (h : ∀ x ∈ l, f x = 0) : sumList l f = 0 := by
+  | nil => simp [sumListB_nil]
+  | cons x xs ih => simp only [List.cons_append, sumListB_cons, ih]; ring
+theorem sumListB_zero {α : Type} (l : List α) (f : α → K) (h : ∀ x ∈ l, f x = 0) : sumList l f = 0 := by
   induction l with
   | nil => rfl
   | cons x xs ih =>
-    rw [sumList_cons, h x (List.mem_cons_self), ih (fun y hy => h y (List.mem_cons_of_mem _ hy))]; ring
+    rw [sumListB_cons, h x (List.mem_cons_self), ih (fun y hy => h y (List.mem_cons_of_mem _ hy))]; ring
 end sums
 
 section shift
